@@ -17,7 +17,7 @@ FLAVOURS = ("string", "display", "view", "ctx_string", "ctxu_string", "scoped_st
 def run(ctx):
     lean_check(ctx, "I18nVerif.Theorems.C02", "C02_")
     probe.run_render_probe(ctx, ctx.rng, n_crates=ctx.budget(1, 4), flavours=FLAVOURS, sig_prefix="flavours", per_key=2, check_groups=True,
-                           opts={"want_groups": True})
+                           opts={"want_groups": True}, cap=1100, prio_share=0.7)
     ctx.assumptions += PARSER_ASSUMPTIONS + probe.ASSUMPTIONS
     finish_broken(ctx, "probe crates")
     write_evidence(ctx, RULE)
